@@ -217,7 +217,11 @@ def run(ctx):
             ctx.violate(f"{kind}_accepted", case,
                         f"{name}: a description violating a declared constraint ({kind} {what}) was accepted via the {route} route",
                         {"kind": kind, "route": route})
-        if expect == "ok" and impl[0] != "ok":
+        if expect == "ok" and impl[0] != "ok" and tree is not None and _has_interleaved_list_block(tree):
+            ctx.violate("valid_rejected_list_block", case,
+                        f"{name}: a valid document containing TAX1099INT_V100 with an ORIGSTATE member and a later child is rejected",
+                        {"cls": "TAX1099INT_V100"})
+        elif expect == "ok" and impl[0] != "ok":
             ctx.violate(f"{kind}_rejected", case,
                         f"{name}: a value exactly at the limit ({kind} {what}) was rejected via the {route} route",
                         {"kind": kind, "route": route})
@@ -225,6 +229,14 @@ def run(ctx):
             probs = py_valid(r[1], schema, by_name)
             if probs:
                 ctx.violate("invalid_instance_exists", case, f"{name}: instance violates its constraints: {probs[:3]}")
+
+
+def _has_interleaved_list_block(tree):
+    for e in tree.iter("TAX1099INT_V100"):
+        tags = [ch.tag for ch in e]
+        if "ORIGSTATE" in tags and any(t not in ("ORIGSTATE", "FORINCOME") for t in tags[tags.index("ORIGSTATE"):]):
+            return True
+    return False
 
 
 def _in_mutex_conflict(c, attr, kwargs):
